@@ -891,6 +891,7 @@ public:
             else if (f == "%ld") n = snprintf(buf, sizeof buf, "%ld", (long)a[3].c);
             else if (f == "%lu") n = snprintf(buf, sizeof buf, "%lu", (unsigned long)a[3].c);
             else if (f.size() >= 2 && f[0] == '%' && strchr("gfeG", f.back()) && f.find('%', 1) == std::string::npos && f.find('*') == std::string::npos) { double d; memcpy(&d, &a[3].c, 8); if (a[3].sym) throw EngineError("snprintf of a symbolic double"); n = snprintf(buf, sizeof buf, f.c_str(), d); }
+            else if (f == "%.*g" || f == "%.*f" || f == "%.*e") { double d; memcpy(&d, &a[4].c, 8); if (a[3].sym || a[4].sym) throw EngineError("snprintf of a symbolic double"); n = snprintf(buf, sizeof buf, f.c_str(), (int)a[3].sext(), d); }
             else throw EngineError("snprintf format " + f);
             uint64_t cap = a[1].c;
             for (uint64_t i = 0; i < cap; i++) { char c = (i < (uint64_t)n && i + 1 < cap) ? buf[i] : 0; store(s, Val(64, a[0].c + i), Val(8, (uint8_t)c)); if (!c) break; }
